@@ -1,6 +1,7 @@
 package main
 
 import (
+	"fmt"
 	"go/constant"
 	"go/token"
 	"go/types"
@@ -103,12 +104,45 @@ func ruleTimeParams(r *Run) {
 	qc := p.Func(cmdPkg, "queryCmd")
 	anchor := r.Ob("ANCHOR", "main time/step parsing", "anchor functions resolve")
 	anchor.Trivial = true
-	if ptr == nil || pts == nil || pst == nil || pdu == nil || dst == nil || qc == nil || len(qc.AnonFuncs) == 0 {
+	// the command's run function: whatever is stored into the command's RunE field (a function
+	// literal, or a bound method of a runner struct)
+	var runE *ssa.Function
+	if qc != nil {
+		for _, g := range funcGroup(qc) {
+			allInstrs(g, func(in ssa.Instruction) {
+				st, ok := in.(*ssa.Store)
+				if !ok {
+					return
+				}
+				if f, _, ok := fieldNameOf(st.Addr); !ok || f != "RunE" {
+					return
+				}
+				switch x := stripTypeOnly(st.Val).(type) {
+				case *ssa.MakeClosure:
+					w, _ := x.Fn.(*ssa.Function)
+					if w != nil && strings.HasSuffix(w.Name(), "$bound") && w.Blocks != nil {
+						for _, c := range callsIn(w) {
+							if m := staticCallee(c); m != nil && m.Blocks != nil {
+								runE = m
+							}
+						}
+					} else if w != nil {
+						runE = w
+					}
+				case *ssa.Function:
+					runE = x
+				}
+			})
+		}
+		if runE == nil && len(qc.AnonFuncs) > 0 {
+			runE = qc.AnonFuncs[0]
+		}
+	}
+	if ptr == nil || pts == nil || pst == nil || pdu == nil || dst == nil || qc == nil || runE == nil {
 		anchor.Fail("-", "parseTimeRange/parseTimestamp/parseStep/parseDuration/defaultStep/queryCmd not all found")
 		return
 	}
 	anchor.OK("resolved").At(r.pos(ptr.Pos()))
-	runE := qc.AnonFuncs[0]
 
 	// ---- errors
 	ruleErrProp(r, ptr, errPropOpts{})
@@ -311,6 +345,59 @@ func ruleTimeParams(r *Run) {
 							help = sv
 						}
 					}
+				}
+			}
+		}
+		if help == "" {
+			// the flag variable may be a field of a runner struct: the cell registered as "since"
+			sinceKey := ""
+			keyOf := func(v ssa.Value) string {
+				var path []string
+				for d := 0; d < 12 && v != nil; d++ {
+					switch x := v.(type) {
+					case *ssa.MakeInterface:
+						v = x.X
+					case *ssa.UnOp:
+						v = x.X
+					case *ssa.FieldAddr:
+						if n, _, ok := fieldNameOf(x); ok && n != "Val" {
+							path = append([]string{n}, path...)
+						}
+						v = x.X
+					case *ssa.Alloc:
+						return "T:" + typeKey(derefType(x.Type())) + "." + strings.Join(path, ".")
+					case *ssa.Parameter:
+						return "T:" + typeKey(derefType(x.Type())) + "." + strings.Join(path, ".")
+					default:
+						return ""
+					}
+				}
+				return ""
+			}
+			for _, g := range funcGroup(qc) {
+				for _, c := range callsIn(g) {
+					callee := staticCallee(c)
+					if callee == nil || !strings.Contains(pkgPathOf(callee), "pflag") || len(c.Common().Args) < 3 {
+						continue
+					}
+					if nm, ok := constStr(c.Common().Args[2]); ok && nm == "since" {
+						sinceKey = keyOf(c.Common().Args[1])
+					}
+				}
+			}
+			if sinceKey != "" {
+				for _, g := range funcGroup(qc) {
+					allInstrs(g, func(in ssa.Instruction) {
+						st, ok := in.(*ssa.Store)
+						if !ok || keyOf(st.Addr) != sinceKey {
+							return
+						}
+						if k, ok := st.Val.(*ssa.Call); ok && len(k.Call.Args) == 1 {
+							if sv, ok := constStr(stripConv(k.Call.Args[0])); ok {
+								help = sv
+							}
+						}
+					})
 				}
 			}
 		}
@@ -667,19 +754,93 @@ func ruleTimeParams(r *Run) {
 	{
 		bad := false
 		var tr, ps, ev *ssa.Call
-		for _, c := range callsIn(runE) {
-			call, ok := c.(*ssa.Call)
-			if !ok {
-				continue
+		runGrp := funcGroup(runE)
+		for _, g := range runGrp {
+			for _, c := range callsIn(g) {
+				call, ok := c.(*ssa.Call)
+				if !ok {
+					continue
+				}
+				switch {
+				case callIs(call, cm, "parseTimeRange"):
+					tr = call
+				case callIs(call, cm, "parseStep"):
+					ps = call
+				case callIs(call, modPath+"/"+enginePkg, "(*Engine).Eval"):
+					ev = call
+				}
 			}
-			switch {
-			case callIs(call, cm, "parseTimeRange"):
-				tr = call
-			case callIs(call, cm, "parseStep"):
-				ps = call
-			case callIs(call, modPath+"/"+enginePkg, "(*Engine).Eval"):
-				ev = call
+		}
+		// flags are identified by the name they are registered under (FlagSet.Var(&x, "name", ..)),
+		// not by the name of the variable or field that holds them
+		flagKey := func(v ssa.Value) string {
+			var path []string
+			for d := 0; d < 12 && v != nil; d++ {
+				switch x := v.(type) {
+				case *ssa.MakeInterface:
+					v = x.X
+				case *ssa.ChangeType:
+					v = x.X
+				case *ssa.UnOp:
+					if x.Op != token.MUL {
+						return ""
+					}
+					v = x.X
+				case *ssa.FieldAddr:
+					if n, _, ok := fieldNameOf(x); ok && n != "Val" {
+						path = append([]string{n}, path...)
+					}
+					v = x.X
+				case *ssa.Field:
+					if n, _, ok := fieldNameOf(x); ok && n != "Val" {
+						path = append([]string{n}, path...)
+					}
+					v = x.X
+				case *ssa.FreeVar:
+					b := freeVarBinding(x)
+					if b == nil {
+						return ""
+					}
+					v = b
+				case *ssa.Alloc:
+					if len(path) == 0 {
+						return fmt.Sprintf("var:%p", x)
+					}
+					return "T:" + typeKey(derefType(x.Type())) + "." + strings.Join(path, ".")
+				case *ssa.Parameter:
+					return "T:" + typeKey(derefType(x.Type())) + "." + strings.Join(path, ".")
+				default:
+					return ""
+				}
 			}
+			return ""
+		}
+		flagName := map[string]string{}
+		for _, g := range funcGroup(qc) {
+			for _, c := range callsIn(g) {
+				callee := staticCallee(c)
+				if callee == nil || !strings.Contains(pkgPathOf(callee), "pflag") || !strings.Contains(callee.Name(), "Var") {
+					continue
+				}
+				args := c.Common().Args
+				// (set, value, name, ...)
+				if len(args) < 3 {
+					continue
+				}
+				if nm, ok := constStr(args[2]); ok {
+					if k := flagKey(args[1]); k != "" {
+						flagName[k] = nm
+					}
+				}
+			}
+		}
+		isFlag := func(v ssa.Value, want string) bool {
+			if k := flagKey(v); k != "" {
+				if nm, ok := flagName[k]; ok {
+					return nm == want
+				}
+			}
+			return false
 		}
 		if tr == nil || ps == nil || ev == nil {
 			ow.Fail(r.pos(runE.Pos()), "parseTimeRange=%v parseStep=%v Eval=%v", tr != nil, ps != nil, ev != nil)
@@ -695,20 +856,31 @@ func ruleTimeParams(r *Run) {
 			start, end := ex(tr, 0), ex(tr, 1)
 			// parseTimeRange(time.Now(), *start.Val, *end.Val, *since.Val)
 			for i, want := range []string{"start", "end", "since"} {
-				if !strings.Contains(describe(tr.Call.Args[i+1], 0), "free:"+want) {
+				if !isFlag(tr.Call.Args[i+1], want) {
 					bad = true
 					ow.Fail(r.pos(tr.Pos()), "argument %d of parseTimeRange is %s, expected the --%s flag", i+1, describe(tr.Call.Args[i+1], 0), want)
 				}
 			}
-			if nc, ok := tr.Call.Args[0].(*ssa.Call); !ok || !callIs(nc, "time", "Now") {
+			if nc, ok := originValueIn(tr.Call.Args[0], runGrp).(*ssa.Call); !ok || !callIs(nc, "time", "Now") {
 				bad = true
 				ow.Fail(r.pos(tr.Pos()), "now is %s, not time.Now()", describe(tr.Call.Args[0], 0))
 			}
-			if ps.Call.Args[1] != start || ps.Call.Args[2] != end || !strings.Contains(describe(ps.Call.Args[0], 0), "free:step") {
+			if ps.Call.Args[1] != start || ps.Call.Args[2] != end || !isFlag(ps.Call.Args[0], "step") {
 				bad = true
 				ow.Fail(r.pos(ps.Pos()), "parseStep(%s, %s, %s): expected (--step, start, end)", describe(ps.Call.Args[0], 0), describe(ps.Call.Args[1], 0), describe(ps.Call.Args[2], 0))
 			}
-			fs, ok := structLitStores(ev.Call.Args[len(ev.Call.Args)-1])
+			evArg := ev.Call.Args[len(ev.Call.Args)-1]
+			if hc, idx, isEx := extractOf(unspill(evArg)); isEx {
+				// the parameters are built by a helper: its successful return
+				if h := staticCallee(hc); h != nil && h.Blocks != nil {
+					for _, ret := range returnsOf(h) {
+						if idx < len(ret.Results) && len(ret.Results) >= 2 && isNilConst(ret.Results[len(ret.Results)-1]) {
+							evArg = ret.Results[idx]
+						}
+					}
+				}
+			}
+			fs, ok := structLitStores(evArg)
 			if !ok {
 				bad = true
 				ow.Undecide(r.pos(ev.Pos()), "EvalParams is not a literal")
@@ -727,11 +899,12 @@ func ruleTimeParams(r *Run) {
 					bad = true
 					ow.Fail(r.pos(ev.Pos()), "EvalParams.Step is %s, not the parsed step", describe(fs["Step"], 0))
 				}
-				if !strings.Contains(describe(fs["Limit"], 0), "limit") {
+				if !isFlag(fs["Limit"], "limit") {
 					bad = true
 					ow.Fail(r.pos(ev.Pos()), "EvalParams.Limit is %s, not the --limit flag", describe(fs["Limit"], 0))
 				}
 			}
+			helperChecked := map[*ssa.Function]bool{}
 			// Eval only after both parses succeeded
 			for _, c := range []*ssa.Call{tr, ps} {
 				errv := ex(c, c.Call.Signature().Results().Len()-1)
@@ -739,6 +912,36 @@ func ruleTimeParams(r *Run) {
 				for _, f := range factsAt(ev.Block()) {
 					if x, nn, ok := nilCheck(f.Cond); ok && x == errv && nn != f.Truth {
 						okNil = true
+					}
+				}
+				if !okNil && c.Parent() != ev.Parent() {
+					// the parse sits in a helper: the helper hands its failures on (ERR-PROP below) and
+					// the evaluation runs only where the helper's own error was found nil
+					for _, hc := range callsIn(ev.Parent()) {
+						call, isCall := hc.(*ssa.Call)
+						if !isCall || staticCallee(call) != c.Parent() {
+							continue
+						}
+						res := call.Call.Signature().Results()
+						if res.Len() == 0 || !isErrorType(res.At(res.Len()-1).Type()) {
+							continue
+						}
+						var herr ssa.Value
+						if res.Len() == 1 {
+							herr = call
+						} else {
+							herr = ex(call, res.Len()-1)
+						}
+						for _, f := range factsAt(ev.Block()) {
+							if x, nn, ok := nilCheck(f.Cond); ok && x == herr && nn != f.Truth {
+								okNil = true
+							}
+						}
+					}
+					if okNil && !helperChecked[c.Parent()] {
+						helperChecked[c.Parent()] = true
+						ruleErrProp(r, c.Parent(), errPropOpts{})
+						ruleErrChecked(r, c.Parent())
 					}
 				}
 				if !okNil {
